@@ -7,6 +7,15 @@ correspondence leg   the fx graph of the real `SuperNet.seed`, its module names 
                      rationals of every `alpha` go to `Drivers/C03.lean`; the model's export
                      (surviving node list with op kind + target + arguments, surviving qualified
                      module names, winner per block) is diffed against the real `export()`.
+histories            "for every value of the selection coefficients": op sequences on fresh SuperNets (alpha
+                     written in place / by .data assignment / by load_state_dict, hard switched,
+                     temperature updated, forward passes in eval or train mode incl. Gumbel noise) ending
+                     in export() - mostly with NO forward pass since the last write of alpha. The model
+                     (`runHist`, `exportWinners`; theorems export_follows_last_write,
+                     export_ignores_sampling_history, stale_theta_rule_exports_wrong_branch) says export
+                     reads the current alpha only; `best_layer_index()`, arg-max of theta_alpha and the
+                     hard flags after the history are diffed against it, and the oracle below is run with
+                     the hard-selection reference output computed AFTER export().
 oracle leg           the property's own statement on the real code: hard-mode `SuperNet.eval()(x)` vs
                      `export().eval()(x)`, losers' modules absent, winner = arg-max alpha, layers
                      outside choice blocks (and the winners) are the very same objects with
@@ -76,31 +85,38 @@ def _winner_sets(rng, spec, n_sampled):
     return out, False
 
 
-def _items(rng, n_random, n_sampled, max_blocks=3):
+def _items(rng, n_random, n_sampled, max_blocks=3, n_hist=4):
     items = []
     for spec in _corpus_specs() + [S.random_spec(rng, max_blocks=max_blocks) for _ in range(n_random)]:
         ws, exhaustive = _winner_sets(rng, spec, n_sampled)
         T = rng.choice([1.0, 1.0, 0.05, 0.5, 5.0, 20.0])
         alphas = [[S.argmax_alpha(rng, len(b['br']), w, T) for b, w in zip(spec['blocks'], wl)] for wl in ws]
         items.append({'spec': spec, 'winners': ws, 'alphas': alphas, 'T': T, 'exhaustive': exhaustive,
-                      'xseed': rng.randrange(1 << 30)})
+                      'xseed': rng.randrange(1 << 30),
+                      'hists': [_random_history(rng, spec) for _ in range(n_hist)]})
     return items
 
 
 # ----------------------------------------------------------------------------- one network
-def _check_one(sn, net, spec, alphas, winners, T, x, snapshot, seed_line):
+def _check_one(sn, net, spec, alphas, winners, T, x, snapshot, seed_line, hist=None):
     """Real export for one coefficient assignment: canonical answer + oracle verdicts."""
     import torch
     from plinio.methods.supernet.nn.combiner import SuperNetCombiner
     rec = {'fail': [], 'err': None}
-    S.set_alpha(sn, alphas)
-    if not all(b.get('hard_ctor') for b in spec['blocks']):
-        sn.update_softmax_options(hard=True)
-    if T != 1.0:
-        sn.update_softmax_options(temperature=T)
-    sn.eval()
-    with torch.no_grad():
-        y = sn(x)
+    if hist is None:
+        S.set_alpha(sn, alphas)
+        if not all(b.get('hard_ctor') for b in spec['blocks']):
+            sn.update_softmax_options(hard=True)
+        if T != 1.0:
+            sn.update_softmax_options(temperature=T)
+        sn.eval()
+        with torch.no_grad():
+            y = sn(x)
+    else:
+        # an op sequence ending in export(): NO forward pass is added here; the hard-selection
+        # reference output is computed after export() (see below)
+        rec.update(_apply_history(sn, spec, hist, x))
+        y = None
     rec['line'] = 'export alpha=%s %s' % (S.alpha_field(sn), seed_line)
     combs = S.combiners(sn)
     # winner the property speaks of: arg-max of the raw coefficients (exact floats, unique by construction)
@@ -111,6 +127,10 @@ def _check_one(sn, net, spec, alphas, winners, T, x, snapshot, seed_line):
     rec['want'] = want
     if want != list(winners):
         rec['fail'].append(('generator', 'generator produced winners %s, wanted %s' % (want, winners)))
+    if hist is not None:
+        # "untouched" is judged against the state right before export (training-mode forward passes of
+        # the history legitimately update BatchNorm statistics)
+        snapshot = {k: v.detach().clone() for k, v in net.state_dict().items()}
     try:
         e = sn.export()
     except Exception as ex:                                     # noqa: BLE001 - the finding is the exception
@@ -118,6 +138,14 @@ def _check_one(sn, net, spec, alphas, winners, T, x, snapshot, seed_line):
         rec['real'] = 'err'
         rec['fail'].append(('raises', 'export() raises ' + rec['err']))
         return rec
+    # the winner export() used, read BEFORE anything else touches the combiners
+    real_win = sorted('%s|%d' % (name, c.best_layer_index()) for name, c in combs)
+    if y is None:
+        # reference: the SuperNet evaluated with hard (one-hot) selection at the CURRENT coefficients
+        sn.update_softmax_options(hard=True)
+        sn.eval()
+        with torch.no_grad():
+            y = sn(x)
     try:
         with torch.no_grad():
             y2 = e.eval()(x)
@@ -125,7 +153,6 @@ def _check_one(sn, net, spec, alphas, winners, T, x, snapshot, seed_line):
         rec['fail'].append(('exported-forward-raises', 'exported network cannot be evaluated: %s: %s'
                             % (type(ex).__name__, str(ex)[:160])))
         y2 = None
-    real_win = sorted('%s|%d' % (name, c.best_layer_index()) for name, c in combs)
     toks = S.graph_tokens(e, SuperNetCombiner)
     mods = sorted(S.module_names(e))
     rec['real'] = 'ok win=[%s] nodes=[%s] mods=[%s]' % (','.join(real_win), ','.join(toks), ','.join(mods))
@@ -173,6 +200,112 @@ def _check_one(sn, net, spec, alphas, winners, T, x, snapshot, seed_line):
     return rec
 
 
+def _comb_state_field(sn, spec):
+    """`st=[…]` of the driver's `history` request, read off the real combiners."""
+    import torch
+    toks = []
+    for (name, c), b in zip(S.combiners(sn), spec['blocks']):
+        toks.append('%s|%d|%d|%d|%s' % (name, bool(b.get('gumbel')), bool(c.hard_softmax),
+                                        int(torch.argmax(c.theta_alpha)),
+                                        '|'.join(S.frac(v) for v in c.alpha.detach().tolist())))
+    return '[' + ','.join(toks) + ']'
+
+
+def _apply_history(sn, spec, hist, x):
+    """Run the op sequence on the real SuperNet; return the driver request and the real answer."""
+    import torch
+    combs = S.combiners(sn)
+    st_field = _comb_state_field(sn, spec)
+    op_toks = []
+    for op in hist:
+        if op['op'] == 'alpha':
+            name, c = combs[op['block']]
+            t = torch.tensor(op['a'], dtype=torch.float32)
+            if op['how'] == 'copy':                 # in-place write (what an optimizer step does)
+                with torch.no_grad():
+                    c.alpha.copy_(t)
+            elif op['how'] == 'data':               # assignment of new storage
+                c.alpha.data = t.clone()
+            else:                                   # checkpoint restore
+                sd = {k: v.clone() for k, v in sn.state_dict().items()}
+                key = [k for k in sd if k.endswith(name + '.alpha')]
+                sd[key[0]] = t.clone()
+                sn.load_state_dict(sd)
+            op_toks.append('a|%s|%s' % (name, '|'.join(S.frac(v) for v in c.alpha.detach().tolist())))
+        elif op['op'] == 'hard':
+            sn.update_softmax_options(hard=bool(op['v']))
+            op_toks.append('h|%d' % bool(op['v']))
+        elif op['op'] == 'temp':
+            sn.update_softmax_options(temperature=op['v'])
+            op_toks.append('t')
+        elif op['op'] == 'fwd':
+            (sn.train if op['train'] else sn.eval)()
+            torch.manual_seed(op.get('seed', 0))
+            with torch.no_grad():
+                sn(x)
+            op_toks.append('f|%d' % bool(op['train']))
+    real = 'win=[%s] sampled=[%s] hard=[%s]' % (
+        ','.join('%s|%d' % (n, c.best_layer_index()) for n, c in combs),
+        ','.join('%s|%d' % (n, int(torch.argmax(c.theta_alpha))) for n, c in combs),
+        ','.join('%s|%d' % (n, bool(c.hard_softmax)) for n, c in combs))
+    return {'hist_line': 'history st=%s ops=[%s]' % (st_field, ','.join(op_toks)), 'hist_real': real}
+
+
+def hist_is_stale(hist):
+    """No forward pass between the last write of alpha and export()."""
+    last_alpha = max([i for i, op in enumerate(hist) if op['op'] == 'alpha'], default=-1)
+    last_fwd = max([i for i, op in enumerate(hist) if op['op'] == 'fwd'], default=-1)
+    return last_alpha > last_fwd
+
+
+def _final_alphas(spec, hist):
+    out = [None] * len(spec['blocks'])
+    for op in hist:
+        if op['op'] == 'alpha':
+            out[op['block']] = op['a']
+    return out
+
+
+def _random_history(rng, spec):
+    """alpha written (three mechanisms) / hard switched / temperature updated / forward passes (eval or
+    train) in random order; every block is written at least once; in most histories the last write of
+    alpha is NOT followed by a forward pass before export()."""
+    sizes = [len(b['br']) for b in spec['blocks']]
+    how = lambda: rng.choice(['copy', 'load', 'data'])              # noqa: E731
+
+    def write(bi, avoid=None):
+        w = rng.randrange(sizes[bi])
+        if avoid is not None and sizes[bi] > 1:
+            while w == avoid:
+                w = rng.randrange(sizes[bi])
+        return {'op': 'alpha', 'block': bi, 'a': S.argmax_alpha(rng, sizes[bi], w, 5.0), 'how': how(), 'w': w}
+
+    def misc():
+        r = rng.random()
+        if r < 0.4:
+            return {'op': 'fwd', 'train': rng.random() < 0.4, 'seed': rng.randrange(1 << 20)}
+        if r < 0.75:
+            return {'op': 'hard', 'v': rng.random() < 0.7}
+        return {'op': 'temp', 'v': rng.choice([0.5, 1.0, 5.0])}
+
+    ops = [write(bi) for bi in range(len(sizes))]
+    if rng.random() < 0.7:
+        ops.append({'op': 'hard', 'v': rng.random() < 0.8})
+    for _ in range(rng.randint(0, 2)):
+        ops.append(misc())
+    ops.append({'op': 'fwd', 'train': rng.random() < 0.3, 'seed': rng.randrange(1 << 20)})
+    cur = {op['block']: op['w'] for op in ops if op['op'] == 'alpha'}
+    for bi in rng.sample(range(len(sizes)), rng.randint(1, len(sizes))):
+        ops.append(write(bi, avoid=cur[bi]))
+    for _ in range(rng.randint(0, 2)):
+        op = misc()
+        if op['op'] != 'fwd' or rng.random() < 0.3:
+            ops.append(op)
+    for op in ops:
+        op.pop('w', None)
+    return ops
+
+
 def _work(item):
     """One network, all its coefficient assignments (runs in a worker process)."""
     common.use_repo_on_path()
@@ -200,11 +333,23 @@ def _work(item):
         rec['alphas'] = alphas
         rec['winners'] = winners
         out['recs'].append(rec)
+    for hist in item.get('hists', []):
+        # a fresh SuperNet per history: the replay starts from the same state
+        net_h = S.build_net(spec)
+        sn_h = SuperNet(net_h, input_shape=S.input_shape(spec), cost=params, full_cost=True)
+        alphas = _final_alphas(spec, hist)
+        winners = [max(range(len(a)), key=lambda i: a[i]) for a in alphas]
+        rec = _check_one(sn_h, net_h, spec, alphas, winners, 1.0, x, None, seed_line, hist=hist)
+        rec['alphas'], rec['winners'], rec['hist'] = alphas, winners, hist
+        out['recs'].append(rec)
     return out
 
 
 # ----------------------------------------------------------------------------- verdicts
-def _finding_key(spec, winners, kind):
+def _finding_key(spec, winners, kind, hist=None):
+    if hist is not None:
+        return 'C03:export:%s:%s' % ('no-forward-since-alpha-change' if hist_is_stale(hist)
+                                     else 'after-history', kind)
     if kind in ('raises', 'exported-forward-raises'):
         tails = [b['br'][w] in S.FUNCTIONAL_TAIL for b, w in zip(spec['blocks'], winners)]
         if any(tails):
@@ -215,8 +360,12 @@ def _finding_key(spec, winners, kind):
 
 def _fails(case):
     """Re-run one case in-process; list of (kind, text)."""
-    item = {'spec': case['spec'], 'alphas': [case['alphas']], 'winners': [case['winners']],
-            'T': case.get('T', 1.0), 'xseed': case.get('xseed', 0)}
+    if case.get('hist') is not None:
+        item = {'spec': case['spec'], 'alphas': [], 'winners': [], 'T': 1.0, 'xseed': case.get('xseed', 0),
+                'hists': [case['hist']]}
+    else:
+        item = {'spec': case['spec'], 'alphas': [case['alphas']], 'winners': [case['winners']],
+                'T': case.get('T', 1.0), 'xseed': case.get('xseed', 0)}
     r = _work(item)
     if r['ctor_err']:
         return [('constructor-raises', r['ctor_err'])]
@@ -233,13 +382,27 @@ def _shrink(case, kind, budget=40):
         except Exception:                                       # noqa: BLE001
             return False
 
+    # histories: drop ops one at a time (every block must still be written once)
+    if best.get('hist') is not None:
+        i = 0
+        while i < len(best['hist']) and budget > 0:
+            h2 = best['hist'][:i] + best['hist'][i + 1:]
+            if {op['block'] for op in h2 if op['op'] == 'alpha'} == set(range(len(best['spec']['blocks']))) \
+                    and hist_is_stale(h2) == hist_is_stale(case['hist']):     # stay in the class of the key
+                fa = _final_alphas(best['spec'], h2)
+                c = dict(best, hist=h2, alphas=fa, winners=[max(range(len(a)), key=lambda j: a[j]) for a in fa])
+                budget -= 1
+                if still(c):
+                    best = c
+                    continue
+            i += 1
     changed = True
     while changed and budget > 0:
         changed = False
         spec = best['spec']
         cands = []
         for bi in range(len(spec['blocks'])):
-            if len(spec['blocks']) > 1:
+            if len(spec['blocks']) > 1 and best.get('hist') is None:
                 s2 = json.loads(json.dumps(spec))
                 del s2['blocks'][bi]
                 cands.append(dict(best, spec=s2, alphas=best['alphas'][:bi] + best['alphas'][bi + 1:],
@@ -247,7 +410,7 @@ def _shrink(case, kind, budget=40):
             b = spec['blocks'][bi]
             w = best['winners'][bi]
             for j in reversed(range(len(b['br']))):
-                if j != w and len(b['br']) > 2:
+                if j != w and len(b['br']) > 2 and best.get('hist') is None:
                     s2 = json.loads(json.dumps(spec))
                     del s2['blocks'][bi]['br'][j]
                     a2 = [list(a) for a in best['alphas']]
@@ -291,7 +454,13 @@ def run(chk):
                 'before/between/after (one of them used twice); every combination of winners when <= 64, else a '
                 'sample that always contains winners 1, 10, 11 of blocks that have them; alpha vectors of four '
                 'styles with a unique arg-max (margin >= 1/16). non-trivial = the winner combination is not '
-                'all-zero (the only one the unit tests export); distinct = distinct (network, winner combination)')
+                'all-zero (the only one the unit tests export); distinct = distinct (network, winner combination). '
+                'PLUS op histories on fresh SuperNets: alpha written (in-place copy / .data assignment / '
+                'load_state_dict) / hard switched / temperature updated / forward passes (eval or train, Gumbel '
+                'noise included) in random order, every block written at least once, ending in export() - in '
+                'most of them with NO forward pass since the last write of alpha; the hard-selection reference '
+                'output is computed AFTER export(). non-trivial history = no forward since the last write, or a '
+                'training-mode forward')
     chk.trusted.append('torch.fx tracing / ShapeProp / recompile / delete_all_unused_submodules and the torch '
                        'kernels (exercised by the oracle leg on every case, modelled as SSA substitution)')
     chk.prove()
@@ -308,12 +477,30 @@ def run(chk):
         for rec in res['recs']:
             lines.append(rec['line'])
             flat.append((item, rec))
-    model = S.driver_parallel(chk, 'C03', lines)
+    hist_recs = [(item, rec) for item, rec in flat if rec.get('hist_line')]
+    model_all = S.driver_parallel(chk, 'C03', lines + [rec['hist_line'] for _, rec in hist_recs])
+    model, model_hist = model_all[:len(lines)], model_all[len(lines):]
     first_fail = {}
+    for (item, rec), ans in zip(hist_recs, model_hist):
+        case = {'kind': 'export', 'spec': item['spec'], 'alphas': rec['alphas'], 'winners': rec['winners'],
+                'T': 1.0, 'xseed': item['xseed'], 'hist': rec['hist']}
+        # arg-max of theta_alpha is compared only where the model determines it (no Gumbel noise)
+        real_f = dict(t.split('=', 1) for t in rec['hist_real'].split(' '))
+        mod_f = dict(t.split('=', 1) for t in ans.split(' ') if '=' in t)
+        if 'sampled' in mod_f and 'sampled' in real_f:
+            rs, ms = real_f['sampled'][1:-1].split(','), mod_f['sampled'][1:-1].split(',')
+            if len(rs) == len(ms):
+                real_f['sampled'] = '[' + ','.join(m if m.endswith('|?') else r for r, m in zip(rs, ms)) + ']'
+        chk.corr(case, ' '.join('%s=%s' % kv for kv in sorted(real_f.items())),
+                 ' '.join('%s=%s' % kv for kv in sorted(mod_f.items())),
+                 'after the op history: branch best_layer_index() hands to export (arg-max of the CURRENT alpha), '
+                 'arg-max of theta_alpha, hard flags: real combiners vs model')
     for (item, rec), ans in zip(flat, model):
         spec = item['spec']
         case = {'kind': 'export', 'spec': spec, 'alphas': rec['alphas'], 'winners': rec['winners'],
                 'T': item['T'], 'xseed': item['xseed']}
+        if rec.get('hist') is not None:
+            case.update(hist=rec['hist'], T=1.0)
         m_main = _canon(ans.split(' plain=')[0].split(' hyp=')[0])
         chk.corr(case, rec['real'], m_main, 'exported node list / module names / winners: real export() vs model')
         if ans.startswith('ok') and not (' plain=1 ' in ans and ' sim=1 ' in ans):
@@ -326,10 +513,20 @@ def run(chk):
             chk.hist['theorem-hypotheses-hold'] = chk.hist.get('theorem-hypotheses-hold', 0) + 1
         nontriv = any(w != 0 for w in rec['winners'])
         use = '+'.join(sorted({b['use'] for b in spec['blocks']}))
-        chk.count((json.dumps(spec, sort_keys=True), tuple(rec['winners'])), nontrivial=nontriv,
+        if rec.get('hist') is not None:
+            stale = hist_is_stale(rec['hist'])
+            nontriv = stale or any(op['op'] == 'fwd' and op['train'] for op in rec['hist'])
+            hb = 'history:%s' % ('no-forward-since-alpha-change' if stale else 'forward-after-last-alpha-change')
+            chk.hist[hb] = chk.hist.get(hb, 0) + 1
+            for op in rec['hist']:
+                k = 'history-op:' + (op['op'] + ('/' + op['how'] if op['op'] == 'alpha' else '') +
+                                     ('/train' if op.get('train') else ''))
+                chk.hist[k] = chk.hist.get(k, 0) + 1
+        chk.count((json.dumps(spec, sort_keys=True), tuple(rec['winners']),
+                   json.dumps(rec.get('hist'), sort_keys=True)), nontrivial=nontriv,
                   sample={'spec': spec, 'winners': rec['winners'], 'alphas': rec['alphas'],
-                          'exported_nodes': rec.get('n_nodes')},
-                  bucket='blocks=%d' % len(spec['blocks']))
+                          'exported_nodes': rec.get('n_nodes'), 'history': rec.get('hist')},
+                  bucket=('history,' if rec.get('hist') is not None else '') + 'blocks=%d' % len(spec['blocks']))
         for b, w in zip(spec['blocks'], rec['winners']):
             for key in ('winner-kind:' + S.KIND_CLASS[b['br'][w]], 'use:' + b['use'],
                         'branches:%s' % ('2-4' if len(b['br']) <= 4 else '5-8' if len(b['br']) <= 8 else '9-12'),
@@ -341,7 +538,7 @@ def run(chk):
         if rec.get('bit_equal'):
             chk.hist['output-bit-identical'] = chk.hist.get('output-bit-identical', 0) + 1
         for kind, text in rec['fail']:
-            key = _finding_key(spec, rec['winners'], kind)
+            key = _finding_key(spec, rec['winners'], kind, rec.get('hist'))
             if key not in first_fail:
                 first_fail[key] = (case, kind, text)
     nbit = chk.hist.get('output-bit-identical', 0)
@@ -359,11 +556,13 @@ def run(chk):
             for rec in res['recs']:
                 chk.count((json.dumps(item['spec'], sort_keys=True), tuple(rec['winners']), 'esc'), bucket='escalated')
                 for kind, text in rec['fail']:
-                    key = _finding_key(item['spec'], rec['winners'], kind)
+                    key = _finding_key(item['spec'], rec['winners'], kind, rec.get('hist'))
                     if key not in first_fail:
-                        first_fail[key] = ({'kind': 'export', 'spec': item['spec'], 'alphas': rec['alphas'],
-                                            'winners': rec['winners'], 'T': item['T'], 'xseed': item['xseed']},
-                                           kind, text)
+                        c = {'kind': 'export', 'spec': item['spec'], 'alphas': rec['alphas'],
+                             'winners': rec['winners'], 'T': item['T'], 'xseed': item['xseed']}
+                        if rec.get('hist') is not None:
+                            c.update(hist=rec['hist'], T=1.0)
+                        first_fail[key] = (c, kind, text)
     for key, (case, kind, text) in sorted(first_fail.items()):
         small = _shrink(case, kind)
         small = dict(small, observed=text)
@@ -380,6 +579,12 @@ def replay(data):
     fails = _fails(case)
     print('network:', json.dumps(case['spec']))
     print('alpha:', case['alphas'], '-> winners', case['winners'])
+    if case.get('hist') is not None:
+        print('history before export() (fresh SuperNet):')
+        for op in case['hist']:
+            print('   ', json.dumps(op))
+        print('   export()   [%s]' % ('no forward pass since the last write of alpha' if hist_is_stale(case['hist'])
+                                      else 'a forward pass follows the last write of alpha'))
     for kind, text in fails:
         print('FAILS [%s] %s' % (kind, text))
     if not fails:
